@@ -76,6 +76,36 @@
 //     says which, per Collect); what Collect leaves in it is what the reader
 //     "reports". One bucket count per bucket of the point's own bounds is
 //     taken to be part of "per-bucket counts".
+//   - "The same instruments ... for that attribute set": every clause is a
+//     statement per instrument, and an instrument is its whole identity -
+//     scope (name, version, schema URL, scope attributes), name, kind, number
+//     type, unit, description. Half of the histories add "twins": instruments
+//     that share all of that but one part with one of the fixed instruments
+//     (a meter whose scope has the same NAME but another version / schema URL
+//     / attributes; another scope name; the same meter under another unit or
+//     description). Each twin is held to every clause on its own - what one
+//     twin's callbacks observe or what is recorded on one twin is not data of
+//     the other. Each RegisterCallback callback belongs to one meter and is
+//     registered for instruments of that meter only (the SDK refuses others);
+//     an observation it makes for the twin of an instrument it is registered
+//     for is an observation "for an instrument that is not in that callback's
+//     registration list" (dropped). Metrics of the output are matched by scope
+//     identity + name + unit + description; an output scope no meter was
+//     obtained for is a violation (unknown_scope). Names that differ in case
+//     only are not generated (identity rules for those are not C08's).
+//   - An instrument obtained once more (MeterProvider.Meter with the same
+//     scope, then the same constructor with the same name, unit, description
+//     and options; observables without a callback option) is the same
+//     instrument: values recorded / callbacks registered through the second
+//     handle belong to the one stream. No clause is added for this; the
+//     existing clauses (one metric per instrument in a collection, running
+//     totals, per-cycle sets) apply.
+//   - How a measurement spells its attribute set (WithAttributeSet,
+//     WithAttributes, the attributes split over two options, a key given twice
+//     with the later option overriding - metric.WithAttributeSet: "merged
+//     together in the order they are passed. Attributes with duplicate keys
+//     will use the last value passed") does not change which attribute set
+//     the measurement is for.
 //   - Data handed out by Collect in an earlier cycle must not change when
 //     later measurements are made (otherwise the reported cumulative value
 //     stops being the running total after the fact); checked for every Collect
@@ -83,11 +113,13 @@
 package c08
 
 import (
+	"fmt"
 	"math"
 	"testing"
 
 	"github.com/go-logr/logr"
 	"go.opentelemetry.io/otel"
+	"go.opentelemetry.io/otel/attribute"
 	"go.opentelemetry.io/otel/verif/internal/vk"
 	"pgregory.net/rapid"
 )
@@ -180,10 +212,166 @@ var obsDefs = []obsDef{
 }
 
 const (
-	maxSets  = 5 // size of the attribute-set pool
-	maxMulti = 3 // multi-instrument callback slots
-	maxSteps = 60
+	maxSets   = 5 // size of the attribute-set pool
+	maxMulti  = 3 // multi-instrument callback slots
+	maxSteps  = 60
+	maxScopes = 3 // extra scopes (beyond "c08" and "c08b") a case may add
+	maxTwins  = 6 // twin instruments a case may add
 )
+
+// ---------------------------------------------------------------------
+// scopes and twin instruments
+//
+// The identity of an instrument is (scope, name, kind, number type, unit,
+// description) and the identity of a scope is (name, version, schema URL,
+// attributes). "The same instruments ... for that attribute set" is a
+// statement per instrument, so two instruments that share every part of
+// their identity but one are two instruments, each held to every clause on
+// its own: a twin is a second instrument of the same name, kind and number
+// type as one of the fixed ones, living in another scope (one that may have
+// the very same scope name and differ in version, schema URL or scope
+// attributes only) or in the same scope under another unit / description.
+
+// ScopeSpec is an instrumentation scope: MeterProvider.Meter(Name,
+// WithInstrumentationVersion(Version), WithSchemaURL(Schema),
+// WithInstrumentationAttributes(Attrs...)), each option only when non-empty.
+type ScopeSpec struct {
+	Name    string  `json:"name"`
+	Version string  `json:"version,omitempty"`
+	Schema  string  `json:"schema,omitempty"`
+	Attrs   []vk.KV `json:"attrs,omitempty"`
+}
+
+// Twin is an additional instrument with the name, kind, number type (and
+// histogram options) of fixed instrument Of (index into syncDefs when Sync,
+// else into obsDefs), created by the meter of scope Scope (0: "c08", 1:
+// "c08b", 2+k: Case.Scopes[k]) with the given unit and description. The k-th
+// synchronous twin is instrument len(syncDefs)+k in "rec" / Late, the k-th
+// observable twin is instrument len(obsDefs)+k in "plan" / "fail" / Multi.
+type Twin struct {
+	Sync  bool   `json:"sync,omitempty"`
+	Of    int    `json:"of"`
+	Scope int    `json:"scope"`
+	Unit  string `json:"unit,omitempty"`
+	Desc  string `json:"desc,omitempty"`
+}
+
+// sdef / odef: an instrument of a case (fixed or twin) with its full identity.
+type sdef struct {
+	syncDef
+	unit, desc string
+	twinOf     int    // -1: one of the fixed instruments
+	key        string // stream name in snapshots and messages
+}
+
+type odef struct {
+	obsDef
+	scope      int
+	unit, desc string
+	twinOf     int
+	key        string
+}
+
+var homeScope = func() map[string]int {
+	m := map[string]int{}
+	for _, d := range syncDefs {
+		m[d.name] = d.scope
+	}
+	for _, d := range obsDefs {
+		m[d.name] = 0
+	}
+	return m
+}()
+
+// streamKey is how a stream is named in snapshots and messages: the bare
+// instrument name for the fixed instruments, the qualified identity for twins.
+func streamName(name string, scope int, unit, desc string) string {
+	if h, ok := homeScope[name]; ok && h == scope && unit == "" && desc == "" {
+		return name
+	}
+	return fmt.Sprintf("%s{scope#%d unit=%q desc=%q}", name, scope, unit, desc)
+}
+
+var legacyScopes = []ScopeSpec{{Name: "c08"}, {Name: "c08b"}}
+
+// scopeID is the canonical identity of a scope.
+func scopeID(s ScopeSpec) string {
+	set := attribute.NewSet(vk.ToAttrs(s.Attrs)...)
+	return fmt.Sprintf("%q %q %q %s", s.Name, s.Version, s.Schema, set.Encoded(attribute.DefaultEncoder()))
+}
+
+// scopeTable: the scopes of a case; entry i >= 2 that repeats the identity of
+// an earlier one (never generated) is an alias of it.
+func scopeTable(c Case) (specs []ScopeSpec, alias []int) {
+	specs = append(specs, legacyScopes...)
+	extra := c.Scopes
+	if len(extra) > maxScopes {
+		extra = extra[:maxScopes]
+	}
+	specs = append(specs, extra...)
+	seen := map[string]int{}
+	alias = make([]int, len(specs))
+	for i, s := range specs {
+		id := scopeID(s)
+		if j, ok := seen[id]; ok {
+			alias[i] = j
+		} else {
+			seen[id], alias[i] = i, i
+		}
+	}
+	return specs, alias
+}
+
+// instruments returns every instrument of the case: the fixed ones followed by
+// the valid twins (a twin that names no instrument / scope, or whose identity
+// is already taken, is dropped; never generated).
+func instruments(c Case) (ss []sdef, os []odef) {
+	_, alias := scopeTable(c)
+	taken := map[string]bool{}
+	for _, d := range syncDefs {
+		ss = append(ss, sdef{syncDef: d, twinOf: -1, key: d.name})
+		taken["s/"+streamName(d.name, d.scope, "", "")] = true
+	}
+	for _, d := range obsDefs {
+		os = append(os, odef{obsDef: d, twinOf: -1, key: d.name})
+		taken["o/"+streamName(d.name, 0, "", "")] = true
+	}
+	tw := c.Twins
+	if len(tw) > maxTwins {
+		tw = tw[:maxTwins]
+	}
+	for _, t := range tw {
+		if t.Scope < 0 || t.Scope >= len(alias) || t.Of < 0 {
+			continue
+		}
+		scope := alias[t.Scope]
+		if t.Sync {
+			if t.Of >= len(syncDefs) {
+				continue
+			}
+			d := syncDefs[t.Of]
+			key := streamName(d.name, scope, t.Unit, t.Desc)
+			if taken["s/"+key] {
+				continue
+			}
+			taken["s/"+key] = true
+			d.scope = scope
+			ss = append(ss, sdef{syncDef: d, unit: t.Unit, desc: t.Desc, twinOf: t.Of, key: key})
+		} else {
+			if t.Of >= len(obsDefs) {
+				continue
+			}
+			d := obsDefs[t.Of]
+			key := streamName(d.name, scope, t.Unit, t.Desc)
+			if taken["o/"+key] {
+				continue
+			}
+			taken["o/"+key] = true
+			os = append(os, odef{obsDef: d, scope: scope, unit: t.Unit, desc: t.Desc, twinOf: t.Of, key: key})
+		}
+	}
+	return ss, os
+}
 
 // ---------------------------------------------------------------------
 // case
@@ -194,6 +382,7 @@ const (
 // callback slot j-1.
 type Obs struct {
 	Set int    `json:"set"`
+	Sp  int    `json:"sp,omitempty"` // spelling of the attribute options (measOpts)
 	V   vk.F64 `json:"v"`
 	I   int64  `json:"i,omitempty"` // int64 instruments: added (exactly) to the integral V
 	Via int    `json:"via"`
@@ -233,6 +422,13 @@ type Op struct {
 	N     int    `json:"n,omitempty"`
 	R     string `json:"r,omitempty"`
 	Delay int    `json:"delay,omitempty"`
+	// rec: Sp is the spelling of the attribute options (measOpts); Again: the
+	// meter and the instrument are obtained once more (same scope, same name,
+	// kind, unit, description, options) and the value is recorded through the
+	// new handle. reg + Again: the same for the slot's meter and instruments
+	// (obtained without callback options), which are then registered.
+	Sp    int  `json:"sp,omitempty"`
+	Again bool `json:"again,omitempty"`
 }
 
 const rmPool = 3
@@ -250,7 +446,23 @@ type Case struct {
 	// Late: sync instruments that are not created up front but at their first
 	// "rec" (a scope none of whose instruments exists yet is first used then).
 	Late []int `json:"late,omitempty"`
-	Ops  []Op  `json:"ops"`
+	// Scopes: scopes 2.. of the case; Twins: the additional instruments;
+	// MultiScope[j]: the scope whose meter registers multi callback slot j
+	// (absent: 0; only instruments of that meter can be registered with it);
+	// TwinsFirst: observable twins are created before the fixed observables.
+	Scopes     []ScopeSpec `json:"scopes,omitempty"`
+	Twins      []Twin      `json:"twins,omitempty"`
+	MultiScope []int       `json:"multi_scope,omitempty"`
+	TwinsFirst bool        `json:"twins_first,omitempty"`
+	Ops        []Op        `json:"ops"`
+}
+
+// slotScope is the scope of multi callback slot j.
+func (c Case) slotScope(j int, alias []int) int {
+	if j < len(c.MultiScope) && c.MultiScope[j] >= 0 && c.MultiScope[j] < len(alias) {
+		return alias[c.MultiScope[j]]
+	}
+	return 0
 }
 
 func (c Case) bounds(i int) []float64 {
@@ -409,6 +621,94 @@ func contains(s []int, x int) bool {
 	return false
 }
 
+var (
+	scopeNameMenu = []string{"c08", "c08", "c08", "c08b", "c08c"}
+	versionMenu   = []string{"1.4.0", "2.0.0"}
+	schemaMenu    = []string{"https://opentelemetry.io/schemas/1.21.0", "https://opentelemetry.io/schemas/1.26.0"}
+	scopeAttrMenu = [][]vk.KV{
+		{{K: "lib", T: "str", S: "a"}},
+		{{K: "lib", T: "str", S: "b"}},
+		{{K: "lib", T: "str", S: "a"}, {K: "shard", T: "int", I: 1}},
+	}
+	unitMenu = []string{"ms", "By", "1"}
+)
+
+// genSpelling: how a measurement names its attribute set (see measOpts).
+var genSpelling = rapid.SampledFrom([]int{0, 0, 0, 1, 1, 2, 3})
+
+// genScope draws a scope that differs from every scope taken so far: a name
+// (mostly one that is in use already) plus any combination of version, schema
+// URL and scope attributes.
+func genScope(t *rapid.T, taken map[string]bool) ScopeSpec {
+	s := ScopeSpec{Name: rapid.SampledFrom(scopeNameMenu).Draw(t, "scope_name")}
+	parts := rapid.IntRange(1, 7).Draw(t, "scope_parts") // bit 0: version, 1: schema URL, 2: attributes
+	if s.Name == "c08c" && rapid.IntRange(0, 2).Draw(t, "plain_scope") == 0 {
+		parts = 0
+	}
+	if parts&1 != 0 {
+		s.Version = rapid.SampledFrom(versionMenu).Draw(t, "scope_version")
+	}
+	if parts&2 != 0 {
+		s.Schema = rapid.SampledFrom(schemaMenu).Draw(t, "scope_schema")
+	}
+	if parts&4 != 0 {
+		s.Attrs = append([]vk.KV{}, rapid.SampledFrom(scopeAttrMenu).Draw(t, "scope_attrs")...)
+	}
+	for n := 3; taken[scopeID(s)]; n++ { // same draw as an earlier scope: another version of it
+		s.Version = fmt.Sprintf("%d.0.0", n)
+	}
+	taken[scopeID(s)] = true
+	return s
+}
+
+// genTwins adds 1..maxScopes scopes and 1..4 twins of active instruments.
+func genTwins(t *rapid.T, c *Case, syncAct, obsAct []int) {
+	taken := map[string]bool{}
+	for _, s := range legacyScopes {
+		taken[scopeID(s)] = true
+	}
+	for k := rapid.IntRange(1, maxScopes).Draw(t, "extra_scopes"); k > 0; k-- {
+		c.Scopes = append(c.Scopes, genScope(t, taken))
+	}
+	nScopes := len(legacyScopes) + len(c.Scopes)
+	for k := rapid.IntRange(1, 4).Draw(t, "twins"); k > 0; k-- {
+		tw := Twin{Sync: len(obsAct) == 0 || (len(syncAct) > 0 && rapid.IntRange(0, 9).Draw(t, "twin_sync") >= 7)}
+		home := 0
+		if tw.Sync {
+			tw.Of = rapid.SampledFrom(syncAct).Draw(t, "twin_of")
+			home = syncDefs[tw.Of].scope
+		} else {
+			tw.Of = rapid.SampledFrom(obsAct).Draw(t, "twin_of")
+		}
+		if rapid.IntRange(0, 3).Draw(t, "twin_same_scope") == 0 {
+			tw.Scope = home
+			how := rapid.IntRange(1, 3).Draw(t, "twin_differs") // bit 0: unit, bit 1: description
+			if how&1 != 0 {
+				tw.Unit = rapid.SampledFrom(unitMenu).Draw(t, "twin_unit")
+			}
+			if how&2 != 0 {
+				tw.Desc = "twin"
+			}
+		} else {
+			var others []int
+			for sc := 0; sc < nScopes; sc++ {
+				if sc != home {
+					others = append(others, sc)
+					if sc >= len(legacyScopes) {
+						others = append(others, sc) // the generated scopes twice as often
+					}
+				}
+			}
+			tw.Scope = rapid.SampledFrom(others).Draw(t, "twin_scope")
+		}
+		ns, no := instruments(*c)
+		c.Twins = append(c.Twins, tw)
+		if ns2, no2 := instruments(*c); len(ns2)+len(no2) == len(ns)+len(no) {
+			c.Twins = c.Twins[:len(c.Twins)-1] // the same twin drawn twice
+		}
+	}
+}
+
 func gen(t *rapid.T) Case {
 	c := Case{}
 	c.NSets = rapid.SampledFrom([]int{1, 2, 2, 3, 3, 4, 5}).Draw(t, "nsets")
@@ -466,11 +766,29 @@ func gen(t *rapid.T) Case {
 			syncAct = []int{rapid.IntRange(0, len(syncDefs)-1).Draw(t, "one_sync")}
 		}
 	}
+	// Twins: in half of the histories some of the active instruments get twins
+	// (same name, kind, number type) in other scopes - mostly scopes that share
+	// their NAME with the original's scope and differ in version, schema URL or
+	// scope attributes - or in the same scope under another unit / description.
+	// Every twin is active.
+	if rapid.IntRange(0, 9).Draw(t, "twin_mode") >= 5 {
+		genTwins(t, &c, syncAct, obsAct)
+	}
+	ss, os := instruments(c)
+	_, alias := scopeTable(c)
+	for i := len(syncDefs); i < len(ss); i++ {
+		syncAct = append(syncAct, i)
+	}
+	for i := len(obsDefs); i < len(os); i++ {
+		obsAct = append(obsAct, i)
+	}
+	c.TwinsFirst = len(os) > len(obsDefs) && rapid.Bool().Draw(t, "twins_first")
+
 	// Some of them are only created when they are first recorded to; the
 	// instruments the history never touches are (mostly) not created at all, so
 	// that a scope only exists once one of its instruments is used.
 	allUpFront := rapid.IntRange(0, 3).Draw(t, "unused_up_front") == 0
-	for i := range syncDefs {
+	for i := range ss {
 		switch {
 		case !contains(syncAct, i):
 			if !allUpFront {
@@ -483,30 +801,79 @@ func gen(t *rapid.T) Case {
 
 	nMulti := 0
 	if len(obsAct) > 0 {
-		nMulti = rapid.IntRange(0, maxMulti).Draw(t, "nmulti")
+		lo := 0
+		if len(os) > len(obsDefs) {
+			lo = 1 // observable twins: RegisterCallback is where instruments are told apart by their identity
+		}
+		nMulti = rapid.IntRange(lo, maxMulti).Draw(t, "nmulti")
 	}
+	// Each slot belongs to the meter of one scope (that of a random active
+	// observable) and lists instruments of that meter only. When slot j-1 lists
+	// an instrument that has kin (its twin / original / fellow twin) in another
+	// scope, slot j is, half of the time, its mirror image there.
 	c.Multi = make([][]int, nMulti)
-	for j := range c.Multi {
-		k := rapid.IntRange(1, min(3, len(obsAct))).Draw(t, "multi_len")
-		perm := rapid.Permutation(obsAct).Draw(t, "multi_insts")
-		c.Multi[j] = append([]int{}, perm[:k]...)
+	multiScope := make([]int, nMulti)
+	inScope := func(sc int) []int {
+		var out []int
+		for _, o := range obsAct {
+			if os[o].scope == sc {
+				out = append(out, o)
+			}
+		}
+		return out
 	}
+	root := func(o int) int {
+		if os[o].twinOf >= 0 {
+			return os[o].twinOf
+		}
+		return o
+	}
+	for j := range c.Multi {
+		if j > 0 && len(os) > len(obsDefs) && rapid.Bool().Draw(t, "mirror") {
+			var mirror []int
+			sc := -1
+			for _, o := range c.Multi[j-1] {
+				for _, o2 := range obsAct {
+					if o2 != o && root(o2) == root(o) && os[o2].scope != os[o].scope && (sc < 0 || os[o2].scope == sc) {
+						sc = os[o2].scope
+						mirror = append(mirror, o2)
+						break
+					}
+				}
+			}
+			if len(mirror) > 0 {
+				c.Multi[j], multiScope[j] = mirror, sc
+				continue
+			}
+		}
+		sc := os[rapid.SampledFrom(obsAct).Draw(t, "multi_scope_of")].scope
+		cands := inScope(sc)
+		k := rapid.IntRange(1, min(3, len(cands))).Draw(t, "multi_len")
+		perm := rapid.Permutation(cands).Draw(t, "multi_insts")
+		c.Multi[j], multiScope[j] = append([]int{}, perm[:k]...), sc
+	}
+	for _, sc := range multiScope {
+		if sc != 0 {
+			c.MultiScope = multiScope
+		}
+	}
+	listed := func(j, o int) bool { return contains(c.Multi[j], o) && os[o].scope == c.slotScope(j, alias) }
 
 	genPlan := func(t *rapid.T, o int) []Obs {
 		// each attribute set at most once per instrument and cycle.
 		sets := pickSubset(t, c.NSets, 0, c.NSets, "plan_sets")
 		var owners []int // callbacks that may legitimately observe o
-		for j, l := range c.Multi {
-			if contains(l, o) {
+		for j := range c.Multi {
+			if listed(j, o) {
 				owners = append(owners, j+1)
 			}
 		}
 		plan := make([]Obs, 0, len(sets))
 		for _, s := range sets {
-			e := Obs{Set: s, V: genObsValue(obsDefs[o]).Draw(t, "obs_v")}
-			if !obsDefs[o].float && rapid.IntRange(0, 5).Draw(t, "obs_huge") == 0 {
+			e := Obs{Set: s, V: genObsValue(os[o].obsDef).Draw(t, "obs_v"), Sp: genSpelling.Draw(t, "obs_sp")}
+			if !os[o].float && rapid.IntRange(0, 5).Draw(t, "obs_huge") == 0 {
 				// deltas are differences of two of these: no overflow
-				e.I = genHuge(t, obsDefs[o].kind != oCounter)
+				e.I = genHuge(t, os[o].kind != oCounter)
 			}
 			switch r := rapid.IntRange(0, 9).Draw(t, "via_kind"); {
 			case nMulti > 0 && r == 9: // any slot: possibly one that does not list o
@@ -565,7 +932,7 @@ func gen(t *rapid.T) Case {
 			if rapid.Bool().Draw(t, "unreg") {
 				k = "unreg"
 			}
-			return Op{K: k, CB: rapid.IntRange(0, nMulti-1).Draw(t, "cb")}
+			return Op{K: k, CB: rapid.IntRange(0, nMulti-1).Draw(t, "cb"), Again: k == "reg" && rapid.IntRange(0, 3).Draw(t, "reg_again") == 0}
 		case w < 24+planW+regW+failW:
 			op := Op{K: "fail", Mode: rapid.SampledFrom([]int{0, 1, 2, 2}).Draw(t, "mode"),
 				N: rapid.SampledFrom([]int{1, 1, 2, 3, 0}).Draw(t, "fail_for")}
@@ -585,8 +952,9 @@ func gen(t *rapid.T) Case {
 			inst := rapid.SampledFrom(syncAct).Draw(t, "inst")
 			op := Op{K: "rec", Inst: inst,
 				Set: rapid.IntRange(0, c.NSets-1).Draw(t, "set"),
-				V:   genSyncValue(syncDefs[inst]).Draw(t, "v")}
-			d := syncDefs[inst]
+				V:   genSyncValue(ss[inst].syncDef).Draw(t, "v"),
+				Sp:  genSpelling.Draw(t, "sp"), Again: rapid.IntRange(0, 7).Draw(t, "again") == 0}
+			d := ss[inst]
 			if !d.float && hugeUsed[[2]int{inst, op.Set}] < maxHugePerStream && rapid.IntRange(0, 5).Draw(t, "rec_huge") == 0 {
 				hugeUsed[[2]int{inst, op.Set}]++
 				op.V, op.I = 0, genHuge(t, d.kind != kCounter)
@@ -606,6 +974,8 @@ func TestDeltaCumulative(t *testing.T) {
 		Property: "C08", Check: "delta_vs_cumulative",
 		Rule: "one MeterProvider, a delta and a cumulative ManualReader; history of <= 60 steps over record (sync counter / up-down / explicit + exponential histogram / gauge, int64 and float64; " +
 			"explicit histograms with default, advisory and View boundary lists of 1..25 buckets in two scopes; instruments created up front or at first use), " +
+			"in half of the histories 1..3 further scopes (mostly of the SAME scope name, differing in version / schema URL / scope attributes) and 1..4 twin instruments (same name, kind, number type as an active instrument; in another scope, or in the same scope under another unit / description), RegisterCallback callbacks per meter (incl. mirror-image callbacks on the twins and observations for the unregistered twin); " +
+			"attribute options spelled as WithAttributeSet / WithAttributes / split over two options / duplicate key overridden; record through / register with a meter and instruments obtained once more; " +
 			"int64 values up to MaxInt64/4 around / beyond 2^53 mixed with small ones, float64 values exactly summable; setObservationPlan (observable counter / up-down / gauge fed by instrument callbacks and by RegisterCallback callbacks, incl. observations for instruments a callback is not registered for), " +
 			"register / unregister callback, callbacks that return an error for 1..3 collection steps (before or after observing), concurrent-collect steps (2..3 goroutines Collect on one reader at once, callbacks perturbed by Gosched / 20us..1ms sleeps), collectBoth (each Collect given a fresh ResourceMetrics, the reader's own previous output or a pool slot either reader filled before); 1..5 attribute sets from a fixed pool; " +
 			"non-trivial = >= 3 collections and (a stream that is reported, then absent for a cycle, then reported again, or a multi-instrument callback that observed in a cycle and is unregistered before a later one); distinct = distinct case encodings",
